@@ -119,6 +119,10 @@ func decodeDependency(ac *parse.AtomCursor) (PackageDependency, error ) {
 		if err != nil {
 			return nil, err
 		}
+		if dep == nil {
+			return nil, fmt.Errorf("missing dependency after USE flag %s: %s", useFlag,
+				ac.RemainingTokenAtPos(start))
+		}
 		newType = toktype_to_pkg_dep[toktype]
 		switch dep.DependencyType() {
 		case Pkg_dep_atom:
@@ -139,11 +143,12 @@ func decodeDependency(ac *parse.AtomCursor) (PackageDependency, error ) {
 			return nil, err
 		}
 		newType = toktype_to_pkg_dep[toktype]
-		if dep.(*ConditionalPackageDependency).Type != Pkg_dep_all {
+		group, isGroup := dep.(*ConditionalPackageDependency)
+		if !isGroup || group.Type != Pkg_dep_all {
 			return nil, fmt.Errorf("invalid pattern after %s: %s",
 			ac.RemainingTokenAtPos(start), ac.SampleAfterPos(start+3))
 		}
-		dep.(*ConditionalPackageDependency).Type = newType
+		group.Type = newType
 		return dep, nil
 	case toktype_test_for_atom:
 		dep, err = newDependencyAtomAtCursor(ac, true)
